@@ -24,26 +24,7 @@ def vp_full(vp):
             and vp["luma_excursion"] >= 1 and vp["color_diff_excursion"] >= 1 and vp["frame_width"] >= 0 and vp["frame_height"] >= 0)
 
 
-# ---- recording ---------------------------------------------------------------------------------------
-
-
-@spec(IO + "record_bitstream_start")
-class _rbs:
-    args = {"state": STATE}
-    requires = ["dinv(state)", 'state["next_bit"] == 7', 'not has(state, "_recorded_bytes")']
-    modifies = ['state["_recorded_bytes"]']
-    raises = {}
-    ensures = ["dinv(state)", 'has(state, "_recorded_bytes")', 'length(state["_recorded_bytes"]) == 0', 'is_fresh(state["_recorded_bytes"])']
-
-
-@spec(IO + "record_bitstream_finish")
-class _rbf:
-    args = {"state": STATE}
-    result = "list:int"
-    requires = ["dinv(state)", 'has(state, "_recorded_bytes")']
-    modifies = ['state["_recorded_bytes"]', 'elems(state["_recorded_bytes"])', 'length(state["_recorded_bytes"])']
-    raises = {}
-    ensures = ["dinv(state)", 'not has(state, "_recorded_bytes")']
+# (record_bitstream_start / record_bitstream_finish: contracts in contracts/c20_decoder_io.py, with the rest of decoder/io.py)
 
 
 # ---- video_parameters.py --------------------------------------------------------------------------------
